@@ -130,6 +130,25 @@ def oracle(case, obs):
         return {'sig': 'errors:re-subscription', 'what': obs['resub']}
     bad = py_fn(case['bad'])
     steps = obs['steps']
+    if case['ctx'] == 'group' and case['handler'] == 'none' and not case['pre'] and not case.get('scale'):
+        # last sentence of C13: no handler inside the group, so the mux error is unhandled where group_by
+        # demultiplexes its inner stream: on_error there, at the first failing item; it never travels on as a mux
+        # error of the outer key and nothing is emitted after it
+        failing = [i for i, e in enumerate(case['trace']) if e[0] == 'n' and bad(dec(e[2]))]
+        leaked = [i for i, st in enumerate(steps) if any(o[0] == 'e' for o in st)]
+        if leaked:
+            return {'sig': 'errors:unhandled-left-the-group', 'what': 'no handler inside the group_by: events %s left it as '
+                    'mux errors (%s) instead of on_error where the group is demultiplexed' % (leaked[:5], json.dumps(steps[leaked[0]])[:120])}
+        if failing:
+            i0 = failing[0]
+            fat = [o for o in steps[i0] if o[0] == 'fatal']
+            if len(fat) != 1 or fat[0][1] != case['code']:
+                return {'sig': 'errors:unhandled-on-error', 'what': 'no handler inside the group_by: first failing event %d emitted '
+                        '%s, expected on_error with code %d' % (i0, json.dumps(steps[i0])[:160], case['code'])}
+            late = [i for i in range(i0 + 1, len(steps)) if steps[i]]
+            if late:
+                return {'sig': 'errors:after-on-error', 'what': 'events %s emitted after on_error' % late[:5]}
+        return None
     if not case['simple']:
         return None
     failing = [i for i, e in enumerate(case['trace']) if e[0] == 'n' and bad(dec(e[2]))]
